@@ -258,7 +258,11 @@ func keyStream(r *vh.Rng, n int, cv *vh.Cases, sum *vh.Summary, idBase int) {
 			case 0:
 				numKeys = append(numKeys, int64(r.Intn(2000)-1000))
 			case 1:
-				numKeys = append(numKeys, r.U64()>>uint(r.Intn(64)))
+				u := r.U64() >> uint(r.Intn(64))
+				if o["SignedInteger"] == true {
+					u >>= 1 // SignedInteger reads integers as int64: a uint64 key above MaxInt64 cannot come back as a number (it stays a string)
+				}
+				numKeys = append(numKeys, u)
 			default:
 				numKeys = append(numKeys, float64(r.Intn(2000)-1000)+0.5)
 			}
